@@ -1,7 +1,10 @@
 """C04 declared precedents cover every cell a formula actually reads."""
 import networkx as nx
 
-from .. import history, seams, values, wbgen
+import hashlib
+import json
+
+from .. import history, plugin, seams, values, wbgen
 from . import c01
 
 ID = 'C04'
@@ -25,7 +28,12 @@ ASSUMPTIONS = [
     'on the stack and are not reads "by a formula"',
     'the harness DAG lists, per formula, the cells it reads by value (from the generator, not '
     'from pycel\'s parser); influence is confirmed through the reference model before reporting',
-    'value mismatches are ignored here (C01 owns them); no trim_graph in these histories',
+    'value mismatches are ignored here (C01 owns them)',
+    'one run in eight is a trimmed model (C08\'s histories: trim_graph, then writes to the inputs '
+    'and to constants the trim kept as values, reads of the outputs, save/load): there the edge '
+    'may come from any node of dep_graph that carries the address read (trim_graph drops plain '
+    'range nodes from cell_map and leaves the wired node in the graph), and the influence oracle '
+    'is off (frozen cells have no precedents any more)',
 ]
 
 
@@ -36,6 +44,10 @@ def budget(tier):
 
 
 def gen_case(rnd, tier, index):
+    if index % 8 == 5:
+        case = gen_trim_case(rnd, tier, index)
+        if case is not None:
+            return case
     knobs = wbgen.draw_knobs(rnd)
     # every reference form stays available more often than in C01
     for feat in ('ranges', 'names', 'cse', 'intersection', 'multicolon', 'rowcol', 'unbounded'):
@@ -43,6 +55,8 @@ def gen_case(rnd, tier, index):
             knobs[feat] = True
     knobs['computed_refs'] = rnd.random() < 0.25
     spec = wbgen.generate(rnd, knobs)
+    if rnd.random() < 0.04:
+        wbgen.add_big_range_gadget(rnd, spec)     # a range of > 1000 cells, nearly all blank
     cfg = c01.draw_cfg(rnd, spec, tier)
     if cfg.get('origin') != 'xlsx' and rnd.random() < 0.15:
         wbgen.add_table_gadget(rnd, spec)     # structured references
@@ -71,7 +85,47 @@ def gen_case(rnd, tier, index):
     return history.legalise({'spec': spec, 'cfg': cfg, 'ops': ops})
 
 
-legalise = history.legalise
+def gen_trim_case(rnd, tier, index):
+    """C08's histories under the read-trace monitor, plus writes to constants that trim_graph
+    kept as plain values (members of ranges no input reaches, precedents of frozen cells)"""
+    from . import c08
+    case = c08.gen_case(rnd, tier, index)
+    if not case.get('ops'):
+        return None
+    spec, cfg = case['spec'], case['cfg']
+    cfg['workload'] = 'trim'
+    dag = wbgen.Dag(spec)
+    pinned = set(spec.get('pinned', ()))
+    reach = dag.closure(cfg['outputs'], declared=True)
+    consts = [a for a in dag.order if a in reach and not wbgen.is_formula_cell(dag.cell[a])
+              and a not in pinned]
+    extra = []
+    cur = {}
+    for _ in range(rnd.choice((2, 4, 8))):
+        if consts and rnd.random() < 0.5:
+            a = rnd.choice(consts)
+            v = c01.draw_write(rnd, cur.get(a, dag.cell[a].get('v')))
+            cur[a] = v
+            extra.append({'op': 'set', 'a': a, 'v': v, 'kept': True})
+        else:
+            extra.append({'op': 'eval', 'a': rnd.choice(cfg['outputs']), 'form': 'cell'})
+    cfg['extra'] = extra
+    return legalise(case)
+
+
+def legalise(case):
+    if case.get('cfg', {}).get('workload') != 'trim':
+        return history.legalise(case)
+    from . import c08
+    case = c08.legalise(case)
+    st = history.Static(case)
+    cfg = case['cfg']
+    if not case.get('ops'):
+        cfg['extra'] = []
+    cfg['extra'] = [o for o in cfg.get('extra', []) if o['a'] in st.all and (
+        o['op'] == 'eval' and o['a'] in cfg.get('outputs', ()) or
+        o['op'] == 'set' and not wbgen.is_formula_cell(st.dag.cell[o['a']]))]
+    return case
 
 
 class Monitor:
@@ -108,6 +162,15 @@ class Monitor:
         declared = [a.address for a in formula.needed_addresses]
         g = compiler.dep_graph
         node = compiler.cell_map.get(addr)
+        if getattr(run, 'trimmed', False) and fcell in g and (
+                node is None or not g.has_edge(node, fcell)):
+            # trim_graph takes plain range nodes out of cell_map and leaves them, wired, in
+            # the graph (they are rebuilt on demand): "the dependency graph has the edge"
+            for cand in g.predecessors(fcell):
+                if cand.address.address == addr:
+                    node = cand
+                    run.count('probe:edge-from-a-node-that-trim-took-out-of-cell_map')
+                    break
         if addr in declared:
             if ':' in addr:
                 run.count('probe:declared-range-read')
@@ -118,8 +181,20 @@ class Monitor:
                 # a range node must itself be wired to its members (nested ranges)
                 from pycel.excelcompiler import _CellRange
                 if isinstance(node, _CellRange) and not node.formula:
-                    for m in node.needed_addresses:
+                    # every cell of the rectangle that is a cell of the model (from the address
+                    # itself, not from what the node declares)
+                    decl_m = None
+                    for m in (c for row in node.address.resolve_range for c in row):
                         mc = compiler.cell_map.get(m.address)
+                        if mc is None and decl_m is None:
+                            decl_m = declared_members(node)
+                        if mc is None and m.address not in decl_m:
+                            run.count('probe:range-member-not-in-model')
+                            continue
+                        if getattr(run, 'trimmed', False) and mc is not None and \
+                                not g.has_edge(mc, node):
+                            mc = next((c for c in g.predecessors(node)
+                                       if c.address.address == m.address), mc)
                         if mc is None or not g.has_edge(mc, node):
                             self.bad = dict(rule='range-member-edge-missing', formula=faddr,
                                             read=addr, member=m.address)
@@ -161,6 +236,10 @@ class Monitor:
                 self.bad = dict(rule='undeclared-read', formula=faddr, read=addr,
                                 cell=c.address, code=formula.python_code, declared=declared)
                 return
+
+
+def declared_members(node):
+    return frozenset(a.address for a in node.needed_addresses)
 
 
 def check_eval(run, i, op, target, expected, out):
@@ -267,7 +346,147 @@ def confirm_influence(run, x, y):
     return on_fresh_thread(probe, name='ref-influence')
 
 
+class TrimRun:
+    """the part of HistoryRun the monitor needs, around C08's operation vocabulary"""
+
+    def __init__(self, case):
+        self.case = case
+        self.st = history.Static(case)
+        self.cfg = case.get('cfg', {})
+        self.counts = {}
+        self.violation = None
+        self.trimmed = False
+        self.nontrivial = False
+
+    def count(self, key, n=1):
+        self.counts[key] = self.counts.get(key, 0) + n
+
+    def violate(self, rule, step, op, expected, got, **extra):
+        if self.violation is None:
+            self.violation = dict(rule=rule, step=step, op=op, expected=expected, got=got, **extra)
+
+
+def run_trim_case(case):
+    from ..refmodel import InlineActor, Reference, RefError, on_fresh_thread
+    from ..world import Driver, TmpDir, outcome_of
+    run = TrimRun(case)
+    mon = Monitor()
+    st, cfg, dag = run.st, run.cfg, run.st.dag
+    ops = list(case.get('ops', [])) + list(cfg.get('extra', []))
+    events = []
+
+    def plan():
+        stored = {}
+        if cfg.get('origin') == 'xlsx':
+            ref = Reference(st.spec, actor=InlineActor())
+            for a in dag.formulas():
+                try:
+                    stored[a] = ref.value(a, {})
+                except RefError:
+                    pass
+        return stored
+
+    stored = on_fresh_thread(plan, name='ref')
+    plugin.reset()
+    pos = {'i': 0, 'pending': None, 'built': False, 'stopped': False}
+
+    def body(driver):
+        if not pos['built']:
+            pos['built'] = True
+            run.count('origin:' + cfg.get('origin', 'nodata'))
+            if cfg.get('origin') == 'xlsx':
+                driver.build_xlsx(st.spec, stored)
+            else:
+                driver.build_nodata(st.spec)
+        if pos['pending'] is not None:
+            op, pos['pending'] = pos['pending'], None
+            if 'exc' in driver.restart_load(op):
+                return 'done'       # C03 / C08 territory
+            run.count('fault:restart-' + op.get('where', 'same'))
+        while pos['i'] < len(ops) and mon.bad is None and not pos['stopped']:
+            i, op = pos['i'], ops[pos['i']]
+            pos['i'] += 1
+            k = op['op']
+            model = driver.model
+            run.count('ops')
+            if k == 'eval':
+                out = driver.step(op)
+                run.count('evals')
+                if run.trimmed:
+                    run.count('output-reads-after-trim')
+            elif k == 'set':
+                if op['a'] not in model.cell_map:
+                    run.count('probe:write-skipped-cell-not-kept-by-trim')
+                    continue
+                out = driver.step(op)
+                run.count('sets')
+                if run.trimmed and op.get('kept') and op['a'] not in flat_inputs:
+                    run.count('probe:write-to-a-constant-trim-kept-as-value')
+            elif k == 'setrange':
+                vals = tuple(tuple(r) for r in op['v'])
+                out = driver.actor.call(outcome_of, lambda: model.set_value(op['rng'], vals))
+            elif k == 'trim':
+                if op.get('retry') and run.trimmed:
+                    continue
+                out = driver.step(op)
+                if 'exc' in out:
+                    nxt = ops[pos['i']] if pos['i'] < len(ops) else None
+                    if not (nxt and nxt['op'] == 'trim' and nxt.get('retry')):
+                        pos['stopped'] = True
+                elif set(op['inputs']) != set(cfg.get('inputs', ())) and not op.get('retry'):
+                    pos['stopped'] = True
+                else:
+                    run.trimmed = True
+                    run.count('fault:trim_graph')
+            elif k == 'restart':
+                out = driver.restart_save(op)
+                if 'exc' in out:
+                    return 'done'
+                pos['pending'] = op
+                if op.get('where') == 'thread':
+                    return 'more'
+                op2, pos['pending'] = pos['pending'], None
+                if 'exc' in driver.restart_load(op2):
+                    return 'done'
+                run.count('fault:restart-' + op.get('where', 'same'))
+                out = {}
+            events.append((i, k, op.get('a') or op.get('rng'), out.get('exc'),
+                           history.cache_digest(driver.model)))
+        return 'done'
+
+    flat_inputs = set()
+    for a in cfg.get('inputs', []):
+        flat_inputs.update(wbgen.flat_range(a) if ':' in a else [a])
+    mon.attach(run)
+    try:
+        with TmpDir() as tmp:
+            driver = Driver(tmp, inline=True)
+            n = 0
+            while on_fresh_thread(body, driver, name=f'sut-{n}') == 'more':
+                n += 1
+    finally:
+        mon.detach()
+    if mon.bad is not None:
+        b = mon.bad
+        run.violate(b['rule'], pos['i'] - 1, ops[pos['i'] - 1] if pos['i'] else {'op': 'build'},
+                    'declared precedent with edge', b, detail=b)
+        run.violation['tag'] = f'{b["rule"]}/' + ('trimmed' if run.trimmed else 'before-trim')
+    c = run.counts
+    return {
+        'violation': run.violation,
+        'digest': hashlib.sha256(json.dumps([events, mon.reads], default=str).encode()).hexdigest()[:16],
+        'sig': hashlib.sha256(repr(('trim', [e[:3] for e in events], mon.reads)).encode()).hexdigest()[:16],
+        'nontrivial': bool(run.trimmed and c.get('output-reads-after-trim')),
+        'counts': c,
+        'sample': {'origin': cfg.get('origin'), 'workload': 'trim', 'inputs': cfg.get('inputs'),
+                   'outputs': cfg.get('outputs'),
+                   'reads': [f'{f} reads {a}' for f, a in mon.reads[:10]]},
+    }
+
+
 def run_case(case):
+    if case.get('cfg', {}).get('workload') == 'trim':
+        return run_trim_case(case)
     mon = Monitor()
     run = history.HistoryRun(case, monitor=mon)
     res = run.run(check_eval)
